@@ -345,10 +345,24 @@ func genCase(rt *rapid.T) Case {
 	if rapid.IntRange(0, 5).Draw(rt, "leadws") == 0 {
 		b.ws()
 	}
+	glued := false
 	for i := 0; i < n; i++ {
 		c.Starts = append(c.Starts, b.sb.Len())
-		b.form(0)
+		if glued {
+			// directly behind the form before it, without white space: a form that starts with its own delimiter
+			if rapid.Bool().Draw(rt, "gluedstr") {
+				b.str()
+			} else {
+				b.list(0, "(")
+			}
+		} else {
+			b.form(0)
+		}
 		c.Ends = append(c.Ends, b.sb.Len())
+		glued = i < n-1 && rapid.IntRange(0, 3).Draw(rt, "glue") == 0
+		if glued {
+			continue
+		}
 		if i < n-1 || rapid.Bool().Draw(rt, "trailws") {
 			b.ws()
 		}
